@@ -1,0 +1,27 @@
+//go:build verif
+
+// Contracts for the deductive verification of this package (read by /verif/govc).
+// This file is compiled only with the build tag "verif" and contains no code:
+// every line below is a comment in the contract language described in
+// /verif/DESIGN.md. Clause names are stable identifiers; [Cxx] are property ids.
+
+package spg
+
+//@ func randomUint32
+//@   raises  [C09] rng:  rngfail(pos)
+//@   ensures [C01,C09] word: res == word(tape, old(pos)) && pos == old(pos)+4
+//@   ensures [C09] filled: !rngfail(old(pos))
+
+//@ func randomUint32n
+//@   panics  [C13] zero: n < 1
+//@   modifies ctr
+//@   loop 1 invariant [C01] aligned:  pos >= old(pos)+4 && (pos-old(pos))%4 == 0
+//@   loop 1 invariant [C01] current:  v == word(tape, pos-4)
+//@   loop 1 invariant [C01] rejected: forall(int(q), old(pos) <= q && q < pos-4 && (q-old(pos))%4 == 0 ==> !acc(n, word(tape, q)))
+//@   ensures [C01] consumed: pos >= old(pos)+4 && (pos-old(pos))%4 == 0
+//@   ensures [C01] accepted: acc(n, word(tape, pos-4))
+//@   ensures [C01] residue:  res == pick(n, word(tape, pos-4))
+//@   ensures [C01] first:    acc(n, word(tape, old(pos))) ==> pos == old(pos)+4
+//@   ensures [C01,C02,C04,C09] draw:  Draw(tape, old(pos), pos, n, res)
+//@   ensures [C01,C02,C03,C04,C13] range: 0 <= res && res < n
+//@   ensures [C02,C04] ghost.named: res == oracle(old(ctr), n) && ctr == old(ctr)+1
